@@ -22,7 +22,7 @@ static bool has_decoy(const Observed &o, std::string &what) {
     }
   for (auto &sk : o.keys)
     for (auto &k : sk.second)
-      if (k.compare(0, 6, "DECOY_") == 0) {
+      if (k.compare(0, 6, "DECOY_") == 0 || k == "SIDE_ONLY") {
         what = "key " + k;
         return true;
       }
@@ -193,7 +193,8 @@ static void run(Src &s) {
   for (size_t i = 0; i < cons.size(); i++) {
     TFile *f = cons[i].file;
     real_text[i] = (f->kind == F_REGULAR || f->kind == F_LINK_REGULAR) ? f->text : std::string();
-    if (f->kind != F_DEVNULL) {
+    // (an empty file stays empty in some cases: a file without content is consulted, and checked, like any other)
+    if (f->kind != F_DEVNULL && !(f->kind == F_EMPTY && s.chance(50))) {
       f->has_override = true;
       f->raw_override = "[DECOYSEC" + std::to_string(i) + "]\nDECOY_" + std::to_string(i) + sep + "1\n";
     }
@@ -213,6 +214,9 @@ static void run(Src &s) {
 
   // restrictions that every file of the tree satisfies may be in force: the caller's check is still owed
   // (bit 0: permission bits every generated file and directory has; bit 1: our own uid; bit 2: our own gid)
+  // the callback may itself read a configuration through the library (a policy file, say)
+  const bool reentrant = s.chance(12);
+  if (reentrant) g_case.tag("callback_reads_a_configuration");
   size_t restr = s.chance(25) ? 1 + s.below(7) : 0;
   struct ResetGuard {
     ~ResetGuard() { econf_reset_security_settings(); }
@@ -265,7 +269,23 @@ static void run(Src &s) {
     for (size_t i : rej) first_rej = std::min(first_rej, i);
     CbCtx cb;
     cb.expect_data = cookie;
+    if (reentrant) {
+      // a side tree the callback consults through the library itself
+      mkdir_p(g_scr.dir + "/vfside/usr/pol.conf.d");
+      mkdir_p(g_scr.dir + "/vfside/etc/pol.conf.d");
+      write_file(g_scr.dir + "/vfside/usr/pol.conf", "allow=1\n");
+      write_file(g_scr.dir + "/vfside/usr/pol.conf.d/10-p.conf", "SIDE_ONLY=1\n");
+      write_file(g_scr.dir + "/vfside/etc/pol.conf.d/20-q.conf", "SIDE_ONLY=2\n");
+    }
     cb.decide = [&](const char *fn) {
+      if (reentrant) {
+        econf_file *side = nullptr;
+#pragma GCC diagnostic push
+#pragma GCC diagnostic ignored "-Wdeprecated-declarations"
+        econf_err se = econf_readDirs(&side, (g_scr.dir + "/vfside/usr").c_str(), (g_scr.dir + "/vfside/etc").c_str(), "pol", "conf", "=", "#");
+#pragma GCC diagnostic pop
+        if (se == ECONF_SUCCESS && side) econf_freeFile(side);
+      }
       std::string p = collapse_slashes(fn ? fn : "");
       auto it = swaps.find(p);
       if (it == swaps.end()) return true;  // "." / ".." pseudo files
